@@ -5,6 +5,7 @@ package main
 
 import (
 	"fmt"
+	"os"
 	"math/big"
 	"strings"
 
@@ -99,21 +100,30 @@ func (c *ctx) walk(u *universe, o walkOpts) {
 			}
 			pre := w.snap()
 			sr := w.step(op)
+			if special && os.Getenv("VERIF_DEBUG_TOUR") != "" && !sr.Skipped {
+				fmt.Fprintf(os.Stderr, "TOUR w%d %s -> %s %v\n", wi, op.String(), statusName(sr.Res.Status), sr.Res.Err)
+			}
 			if fromTour {
 				for _, m := range sr.NewMsgs {
 					pending = append(pending, &worldOp{Kind: opDeliver, ID: m.ID, Gas: m.GasLimit})
 				}
 			}
+			// the input structure is the caller's: the parser is run on it after the execution, the same input may be executed again
+			// (judged by the properties that speak about the input: C10 - the parser's report for the call - and C13)
+			if (c.prop == "C10" || c.prop == "C13") && !sr.Skipped && sr.Res != nil && sr.Res.InputMutated != "" {
+				c.fail("monitor", "input-mutated/"+sr.Call.Fn, fmt.Sprintf("%s modified the input it was given: %s", sr.Call.Fn, sr.Res.InputMutated),
+					map[string]interface{}{"call": describeCall(sr.Call), "pre": digestAccounts(sr.Res.Pre), "history": histReplay(hist)})
+			}
 			// what an earlier call returned must not change when later calls run (an output that aliases a pooled or reused buffer does):
 			// the previous output is serialised again after this step and compared with what it was when it was returned
-			if prevOut != nil {
+			if prevOut != nil && (c.prop == "C10" || c.prop == "C12" || c.prop == "C13") {
 				if now := coqOutput(prevOut); now != prevOutSnap {
 					c.fail("monitor", "output-changed-by-a-later-call/"+prevFn,
 						fmt.Sprintf("the output returned by %s changed after the next call (%s) ran: it was %.300s and now reads %.300s", prevFn, op.String(), prevOutSnap, now),
 						map[string]interface{}{"earlier_call": prevCall, "later_op": op.String(), "history": histReplay(hist)})
 				}
-				prevOut = nil
 			}
+			prevOut = nil
 			if !sr.Skipped && sr.Res != nil && sr.Res.Status == 0 && sr.Res.Out != nil {
 				prevOut, prevOutSnap, prevFn, prevCall = sr.Res.Out, coqOutput(sr.Res.Out), sr.Call.Fn, describeCall(sr.Call)
 			}
